@@ -116,7 +116,9 @@ def show(d):
 
 
 class Denoter:
-    def __init__(self, raw="raw", super_call=None, names=None):
+    def __init__(self, raw="raw", super_call=None, names=None,
+                 strsyms=False):
+        self.strsyms = strsyms      # unknown values in f-strings: symbols
         self.raw = raw
         self.super_call = super_call    # (method name, [arg asts]) -> den
         self.names = names or {}
@@ -218,12 +220,22 @@ class Denoter:
             for v in e.values:
                 if isinstance(v, ast.Constant):
                     parts.append(("lit", v.value))
+                elif isinstance(v, ast.FormattedValue) and \
+                        v.format_spec is not None and _hexspec(
+                            v.format_spec) is not None:
+                    case, width = _hexspec(v.format_spec)
+                    parts.append(("hexint", case, width,
+                                  unparse(v.value, 200)))
                 elif isinstance(v, ast.FormattedValue):
                     if v.conversion not in (-1, 115) or (
                             v.format_spec is not None and unparse(
                                 v.format_spec) not in ("f'd'", "f''")):
                         return None
-                    parts.append(self.den(v.value))
+                    d = self.den(v.value)
+                    if d[0] == "opaque" and self.strsyms and \
+                            v.format_spec is None:
+                        d = ("strsym", unparse(v.value, 200))
+                    parts.append(d)
             return _fmt(parts)
         if isinstance(e, ast.Call):
             return self._call(e)
@@ -363,6 +375,27 @@ class Denoter:
                 if r[0] == "str" and r[1][0] == "lit":
                     return self._template(r[1][1], "{", list(e.args))
                 return None
+            if meth == "hex" and not e.args and not e.keywords:
+                return ("str", ("hex", "lower", unparse(recv, 200)))
+            if meth in ("upper", "lower") and not e.args:
+                r = self.den(recv)
+                if r[0] == "str" and r[1][0] == "hex":
+                    return ("str", ("hex", meth, r[1][2]))
+                return None
+            if meth == "encode" and len(e.args) <= 1 and not e.keywords:
+                r = self.den(recv)
+                codec = e.args[0].value if e.args and isinstance(
+                    e.args[0], ast.Constant) else "utf-8"
+                if r[0] == "str":
+                    return ("bytes-of", str(codec).lower().replace("_", "-"),
+                            r[1])
+                return None
+            if meth == "join" and len(e.args) == 1 and not e.keywords:
+                r = self.den(recv)
+                if r[0] == "str" and r[1] == ("lit", ""):
+                    h = _hex_of_bytes(e.args[0])
+                    if h is not None:
+                        return ("str", ("hex",) + h)
             if meth == "join" and len(e.args) == 1 and not e.keywords:
                 r = self.den(recv)
                 if r[0] == "str" and r[1][0] == "lit" and _str_of_raw_bytes(
@@ -388,6 +421,8 @@ def _parts(d):
         return list(d[1][1])
     if d[0] == "str" and d[1][0] == "lit":
         return [("lit", d[1][1])]
+    if d[0] == "str" and d[1][0] in ("strsym", "hex"):
+        return [d[1]]
     return [d]
 
 
@@ -407,10 +442,13 @@ def _fmt(parts):
             continue
         else:
             merged.append(p)
-    if any(p[0] not in ("lit", "num") for p in merged):
+    if any(p[0] not in ("lit", "num", "strsym", "hex", "hexint")
+           for p in merged):
         return None
     if len(merged) == 1 and merged[0][0] == "lit":
         return ("str", ("lit", merged[0][1]))
+    if len(merged) == 1 and merged[0][0] in ("strsym", "hex"):
+        return ("str", merged[0])
     if not merged:
         return ("str", ("lit", ""))
     return ("str", ("fmt", tuple(merged)))
@@ -468,3 +506,37 @@ def _before_nul(e, raw):
             c.args[1], ast.Constant) and isinstance(c.args[1].value, int)
             and c.args[1].value >= 1)
     return False
+
+
+def _hex_of_bytes(e):
+    """("upper"|"lower", source text) for a comprehension that formats each
+    byte of a bytes value as two hex digits."""
+    if not (isinstance(e, (ast.GeneratorExp, ast.ListComp)) and len(
+            e.generators) == 1):
+        return None
+    g = e.generators[0]
+    if g.ifs or g.is_async or not isinstance(g.target, ast.Name):
+        return None
+    x = g.target.id
+    t = unparse(e.elt)
+    forms = {"'{:02X}'.format(%s)" % x: "upper",
+             "'{:02x}'.format(%s)" % x: "lower",
+             "'%%02X' %% %s" % x: "upper", "'%%02x' %% %s" % x: "lower",
+             "f'{%s:02X}'" % x: "upper", "f'{%s:02x}'" % x: "lower",
+             "format(%s, '02X')" % x: "upper",
+             "format(%s, '02x')" % x: "lower"}
+    if t in forms:
+        return (forms[t], unparse(g.iter, 200))
+    return None
+
+
+def _hexspec(spec):
+    """('upper'|'lower', width) for a format spec like 04X."""
+    import re
+    if isinstance(spec, ast.JoinedStr) and len(spec.values) == 1 and \
+            isinstance(spec.values[0], ast.Constant):
+        m = re.fullmatch(r"0?(\d*)([Xx])", str(spec.values[0].value))
+        if m:
+            return ("upper" if m.group(2) == "X" else "lower",
+                    int(m.group(1) or 0))
+    return None
